@@ -52,6 +52,19 @@ def _tojson_replacements(repo):
     return tbl, lean
 
 
+@item("TOJSON_TRUE_INDENT")
+def _tojson_true_indent(repo):
+    src = read(repo, "minijinja/src/filters.rs")
+    body = fn_body(src, r"pub fn tojson\(value: &Value, indent: Option<Value>, args: Kwargs\) -> Result<Value, Error>\s*\{")
+    m = re.search(r"Some\(true\)\s*=>\s*Some\((\d+)\)", body)
+    if not m or not re.search(r"Some\(false\)\s*=>\s*None", body):
+        raise KeyError("tojson(true) / tojson(false) indent rule")
+    if '" ".repeat(indent)' not in body or "PrettyFormatter::with_indent" not in body:
+        raise KeyError("tojson indentation is no longer `indent` spaces through PrettyFormatter")
+    v = int(m.group(1))
+    return v, f"def tojsonTrueIndent : Nat := {v}"
+
+
 @item("JINJA_JSON_SEPARATORS")
 def _jinja_separators(repo):
     src = read(repo, "minijinja/src/filters.rs")
